@@ -10,12 +10,23 @@ op `filter_file`
     cues, outcomes : {"keep": [..]|None, "remove": [..]|None, "map": [[k, v]..]|None}
     n_jobs, chunksize, passes (default 1: how often the same filter is applied,
                      each pass reading the previous pass' output file)
+    containers     : {"keep_cues"|"keep_outcomes"|"remove_cues"|"remove_outcomes":
+                      "list"|"tuple"|"set"|"frozenset"|"dict_keys"} (default list) and
+                     {"cue_map"|"outcome_map": "dict"|"defaultdict"|"defaultdict_factory"|"ordereddict"}
+                     (default dict): the Python type the argument is handed over as.  The
+                     defaultdict variants carry their own default factory (`str`, resp. one
+                     that returns 'DEFAULT-FACTORY-VALUE'): the documented meaning of a map
+                     is "removes all cues that do not have a key", whatever the mapping type.
+    verbose        : pass verbose=True (output captured in memory)
   returns {'input_lines', 'passes': [lines of the output after each pass],
            'terminated': every output file is '' or ends with '\\n',
            'file_unchanged'} or {'err': class}.
 The files are read back with gzip directly (never with pyndl's reader).
 """
+import collections
+import contextlib
 import gzip
+import io
 import os
 import shutil
 import tempfile
@@ -42,15 +53,50 @@ def _lines(text):
     return ls
 
 
-def _side_kwargs(side, which):
+def _factory_value():
+    return 'DEFAULT-FACTORY-VALUE'
+
+
+def container(kind, items):
+    """the token list `items` as the requested Python collection type"""
+    items = list(items)
+    if kind in (None, 'list'):
+        return items
+    if kind == 'tuple':
+        return tuple(items)
+    if kind == 'set':
+        return set(items)
+    if kind == 'frozenset':
+        return frozenset(items)
+    if kind == 'dict_keys':
+        return dict.fromkeys(items).keys()
+    raise RuntimeError('bad container %r' % (kind,))
+
+
+def mapping(kind, pairs):
+    """the key/value pairs as the requested mapping type"""
+    d = {k: v for k, v in pairs}
+    if kind in (None, 'dict'):
+        return d
+    if kind == 'defaultdict':
+        return collections.defaultdict(str, d)
+    if kind == 'defaultdict_factory':
+        return collections.defaultdict(_factory_value, d)
+    if kind == 'ordereddict':
+        return collections.OrderedDict(d)
+    raise RuntimeError('bad mapping %r' % (kind,))
+
+
+def _side_kwargs(side, which, containers=None):
     side = side or {}
+    containers = containers or {}
     kw = {}
     if side.get('keep') is not None:
-        kw['keep_' + which] = list(side['keep'])
+        kw['keep_' + which] = container(containers.get('keep_' + which), side['keep'])
     if side.get('remove') is not None:
-        kw['remove_' + which] = list(side['remove'])
+        kw['remove_' + which] = container(containers.get('remove_' + which), side['remove'])
     if side.get('map') is not None:
-        kw[which[:-1] + '_map'] = {k: v for k, v in side['map']}
+        kw[which[:-1] + '_map'] = mapping(containers.get(which[:-1] + '_map'), side['map'])
     return kw
 
 
@@ -68,15 +114,20 @@ def op_filter_file(t):
                 f.write(text)
         before = impl.sha(src)
         res = {'input_lines': _lines(_read_text(src)), 'passes': [], 'terminated': True}
-        kw = {}
-        kw.update(_side_kwargs(t.get('cues'), 'cues'))
-        kw.update(_side_kwargs(t.get('outcomes'), 'outcomes'))
         cur = src
         try:
             for k in range(int(t.get('passes', 1))):
                 dst = os.path.join(root, 'out%d.tab.gz' % k)
-                preprocess.filter_event_file(cur, dst, n_jobs=int(t.get('n_jobs', 1)),
-                                             chunksize=int(t.get('chunksize', 100000)), **kw)
+                # the arguments are built anew for every pass (a dict view / mapping object is not
+                # shared between two calls)
+                kw = {}
+                kw.update(_side_kwargs(t.get('cues'), 'cues', t.get('containers')))
+                kw.update(_side_kwargs(t.get('outcomes'), 'outcomes', t.get('containers')))
+                if t.get('verbose'):
+                    kw['verbose'] = True          # X1
+                with contextlib.redirect_stdout(io.StringIO()):
+                    preprocess.filter_event_file(cur, dst, n_jobs=int(t.get('n_jobs', 1)),
+                                                 chunksize=int(t.get('chunksize', 100000)), **kw)
                 text = _read_text(dst)
                 if text and not text.endswith('\n'):
                     res['terminated'] = False
